@@ -9,3 +9,8 @@ let desc = { fresh = g2_fresh; decode = g2_decode_into; serialize = None; fields
   next = (fun _ _ -> "payload"); render_panics = g2_render_panics; of_spec = (fun _ -> failwith "no spec"); junk_len = 0 }
 let run id ops out = Lsmallutil.run_with_decf desc g2_decode_fn id ops out
 let registered = Registry.register "Lgtp2" run
+let coq_ie (e : g2ie) = Printf.sprintf "(mkIe %s %s)" (coq_z e.ie_type) (coq_zlist e.ie_content)
+let coq_layer (l : gtp2) = Printf.sprintf "(mkG2 %s %s %s %s %s %s %s %s %s %s %s %s)" (coq_zlist l.g2_contents) (coq_zlist l.g2_payload) (coq_z l.g2_version) (coq_bool l.g2_piggy)
+  (coq_bool l.g2_teidflag) (coq_z l.g2_prio) (coq_z l.g2_mtype) (coq_z l.g2_mlen) (coq_z l.g2_teid) (coq_z l.g2_seq) (coq_z l.g2_spare) (coq_list coq_ie l.g2_ies)
+let registered_coq = Registry.register_coq "Lgtp2" ("From GP Require Import Base Lgtp2Model.\n",
+  Lsmallutil.to_coq_generic { Lsmallutil.cd = desc; coq_layer; g_dec = "g2_decode_into"; g_fresh = "g2_fresh"; g_ser = ""; g_rp = "g2_render_panics" })
